@@ -58,6 +58,9 @@ DlitzCfg(rounds) == CatSeq(<<Str("$p5k2$"), IF rounds = 400 THEN Str("") ELSE <<
 Dlitz(rounds) == P0(Cat3(DlitzCfg(rounds), Str("$"), AB64(Pbkdf2("sha1", PW, DlitzCfg(rounds), rounds, 24))))
 DjangoPbkdf2(tag, alg, rounds, n) == P0(CatSeq(<<Str(tag), Dec(rounds), Str("$"), SALT, Str("$"), B64(Pbkdf2(alg, PW, SALT, rounds, n))>>))
 ScryptMcf(ln, r, p) == P0(CatSeq(<<Str("$scrypt$ln="), Dec(ln), Str(",r="), Dec(r), Str(",p="), Dec(p), Str("$"), B64NoPad(SALT), Str("$"), B64NoPad(Scrypt(PW, SALT, 2^ln, r, p, 32))>>))
+\* the "$7$" spelling (scrypt's own crypt format): log2(N) as one radix-64 digit, r and p as 30-bit little-endian radix-64 numbers,
+\* the salt text as it is, the 32-byte key in crypt's little-endian radix-64
+ScryptSeven(ln, r, p) == P0(CatSeq(<<Str("$7$"), H64Char(ln), <<"h64int", r, 5>>, <<"h64int", p, 5>>, SALT, Str("$"), H64Groups(Scrypt(PW, SALT, 2^ln, r, p, 32), LEGroups(32))>>))
 \* scram: one PBKDF2 digest per algorithm over the SASLprep'd password (SaltedPassword of RFC 5802)
 ScramDigest(alg, rounds) == P0(Pbkdf2(alg, <<"saslprep", PW>>, SALT, rounds, 0))
 --------------------------------------------------------------------------------
